@@ -7,15 +7,15 @@ FUNC_TYPES = (ast.FunctionDef, ast.AsyncFunctionDef, ast.Lambda)
 
 
 def walk_own(node, include_nested=False):
-    """Walk the body of a function without descending into nested defs/classes
-    (lambdas and comprehensions are descended into)."""
-    todo = list(ast.iter_child_nodes(node))
+    """Walk the body of a function in source (pre-)order without descending into nested
+    defs/classes (lambdas and comprehensions are descended into)."""
+    todo = list(reversed(list(ast.iter_child_nodes(node))))
     while todo:
         n = todo.pop()
         yield n
         if not include_nested and isinstance(n, (ast.FunctionDef, ast.AsyncFunctionDef, ast.ClassDef)):
             continue
-        todo.extend(ast.iter_child_nodes(n))
+        todo.extend(reversed(list(ast.iter_child_nodes(n))))
 
 
 def own_stmts(fn_node):
